@@ -6,7 +6,7 @@
    phases, the RX task's three phases, poll and drop split at their yield points.  The guards on
    ODropFut / expired OPollEnd are exactly the exclusion in C02's quantifier (no expiry or
    abandonment while TX or RX is inside that buffer; that is C06's window). *)
-From EC Require Import Base.Prelude Base.Bytes Pdu.Frame Pdu.Slots Pdu.Client.
+From EC Require Import Base.Prelude Base.Bytes Pdu.Frame Pdu.Slots Pdu.View Pdu.Hist Pdu.Client.
 Local Open Scope N_scope.
 
 Record xstate := {
@@ -95,6 +95,7 @@ Definition xstep (x : xstate) (o : op) : option xstate :=
   | ODropClear i =>
     Some {| xs := op_drop_clear s i; xh := xh x; xtx := xtx x; xrx := xrx x |}
   | ORx _ | OPoll _ _ _ | ODropReceived _ | OReset => None   (* use the split forms *)
+  | OTake _ _ _ | OIter _ | OViewRead _ _ _ => None            (* reading is C01; it does not move statuses beyond the drop *)
   end.
 
 Fixpoint xrun (x : xstate) (ops : list op) : option xstate :=
